@@ -281,6 +281,7 @@ def monitor_c06(sc, obs):
                     _bad(v, 'C06/finished-twice', 'op %d: device %d finished part %d twice' % (i, d, r[4]))
                 finished.add((d, r[4]))
             if lab == 6:
+                finished.discard((d, r[4]))      # a new acceptance (re-entrant routes bring a part to the same device again)
                 for c in cbs_of[d]:
                     if c[0] == 'set_cycle':
                         cyc[d] = c[1]
